@@ -4,6 +4,7 @@ import (
 	"encoding/json"
 	"fmt"
 	"regexp"
+	"strconv"
 	"strings"
 
 	mxj "github.com/clbanning/mxj/v2"
@@ -204,7 +205,7 @@ func c04Decos(base *XElem, thorough bool) []Deco {
 			ds = append(ds, Deco{Kind: 'p', El: i, Pos: pos, Value: "do=\"it\""})
 			ds = append(ds, Deco{Kind: 'd', El: i, Pos: pos, Value: "ENTITY e \"v\""})
 		}
-		for _, rn := range []string{"n:a", "B", "a-b"} {
+		for _, rn := range []string{"n:a", "m:a", "B", "a-b"} {
 			ds = append(ds, Deco{Kind: 'n', El: i, Name: rn})
 		}
 	}
@@ -237,7 +238,7 @@ func c04InDomain(doc *XElem) bool {
 
 func c04Run(c *Ctx) {
 	mustBeDefault(c)
-	c.S.Rule = "cases = (document, path): documents are all element trees with <= N elements (sibling names over {a,b}, every interleaving) with <= D decorations from: attributes (plain, namespaced, xmlns declaration; pairs give both orders), one text run alone or first (plain and CDATA; special characters, quotes, non-ASCII, blanks), one comment / directive / processing instruction at every position, renamed elements (namespace prefix, case, hyphen); paths NewMapXmlSeq->Xml, ->XmlIndent, BeautifyXml, BeautifyXml->NewMapFormattedXmlSeq->Xml, and XmlIndent followed by Xml on the same MapSeq. Oracle: the raw token stream of the output (encoding/xml RawToken) equals the stream the abstract tree denotes - exactly for Xml, modulo whitespace-only character data for the indented forms; text compared after the documented trimming. XMLEscapeChars(true). Ascending/descending map order; E-choice bound 1 on the smaller documents. non-trivial = round trip executed."
+	c.S.Rule = "cases = (document, path): documents are all element trees with <= N elements (sibling names over {a,b}, every interleaving) with <= D decorations from: attributes (plain, namespaced, xmlns declaration; pairs give both orders), one text run alone or first (plain and CDATA; special characters, quotes, non-ASCII, blanks), one comment / directive / processing instruction at every position, renamed elements (two namespace prefixes on the same local name, case, hyphen); a wide family (one element with 9-13, 33 and 65 sequenced members in the sibling patterns a*, (a,b)*, (a,a,b)*, with and without leading text, a comment and a processing instruction among them, at the root and one level down; 9-13 attributes on one element); paths NewMapXmlSeq->Xml, ->XmlIndent, BeautifyXml, BeautifyXml->NewMapFormattedXmlSeq->Xml, and XmlIndent followed by Xml on the same MapSeq. Oracle: the raw token stream of the output (encoding/xml RawToken) equals the stream the abstract tree denotes - exactly for Xml, modulo whitespace-only character data for the indented forms; text compared after the documented trimming. XMLEscapeChars(true). Ascending/descending map order; E-choice bound 1 on the smaller documents. non-trivial = round trip executed."
 	c.S.Assumptions = []string{"text is the first item of its element (property: alone or before its child elements)", "documents without prolog (the sequence decoder documents a no-root result for leading comments/PIs)"}
 	n1, n2, ech := 4, 3, 3
 	if c.Thorough {
@@ -301,5 +302,60 @@ func c04Run(c *Ctx) {
 			}
 		}
 	}
+	// wide family: one element (the root, or the only child of the root) with 9..13, 33 and 65 sequenced
+	// members - child elements in the patterns a* / (a,b)* / (a,a,b)*, optionally leading text, optionally a
+	// comment and a processing instruction in the middle - and elements with 9..13 attributes
+	for _, wd := range c04Wide() {
+		runDoc(wd)
+	}
 	resetOptions()
+}
+
+func c04Wide() []*XElem {
+	var out []*XElem
+	mk := func(k, pat int, text, items, nested bool) *XElem {
+		e := &XElem{Local: "w"}
+		if text {
+			e.Items = append(e.Items, XItem{Kind: 't', Text: "t"})
+		}
+		for i := 0; i < k; i++ {
+			if items && i == k/2 {
+				e.Items = append(e.Items, XItem{Kind: 'c', Text: " note "}, XItem{Kind: 'p', Target: "pi", Text: "do=\"it\""})
+			}
+			nm := "a"
+			if pat == 1 && i%2 == 1 || pat == 2 && i%3 == 2 {
+				nm = "b"
+			}
+			ch := &XElem{Local: nm, Items: []XItem{{Kind: 't', Text: "v" + strconv.Itoa(i)}}}
+			e.Items = append(e.Items, XItem{Kind: 'e', Elem: ch})
+		}
+		if nested {
+			return &XElem{Local: "r", Items: []XItem{{Kind: 'e', Elem: e}}}
+		}
+		return e
+	}
+	for _, k := range []int{9, 10, 11, 12, 13, 33, 65} {
+		for pat := 0; pat < 3; pat++ {
+			for _, text := range []bool{false, true} {
+				for _, items := range []bool{false, true} {
+					for _, nested := range []bool{false, true} {
+						if k > 13 && (items || nested) {
+							continue
+						}
+						out = append(out, mk(k, pat, text, items, nested))
+					}
+				}
+			}
+		}
+	}
+	for _, k := range []int{9, 10, 11, 12, 13} {
+		for _, kids := range []int{0, 2} {
+			e := mk(kids, 1, false, false, false)
+			for i := 0; i < k; i++ {
+				e.Attrs = append(e.Attrs, XAttr{Local: "x" + string(rune('a'+(i*7)%k)) + strconv.Itoa(i), Value: "v" + strconv.Itoa(i)})
+			}
+			out = append(out, e)
+		}
+	}
+	return out
 }
